@@ -256,6 +256,14 @@ def handleRI (toks : List String) : String :=
 
 def handle : List String → String
   | "seq" :: toks => handleCC toks
+  | ["dial", callers, during, total, failed, open_] =>
+    -- C20: the regionserver is dialled once per connection object, whatever the number of
+    -- concurrent first users (real region.NewClient; harness/cc.go dialOnceScenario)
+    if total ≠ "total=1" || (during ≠ "during=1" && during ≠ "during=0") then
+      s!"SPEC key=server-dialled-more-than-once {callers} {during} {total}"
+    else if failed ≠ "failed=0" then s!"SPEC key=dial-failed-for-a-concurrent-caller {failed}"
+    else if open_ ≠ "openafterclose=0" then s!"SPEC key=connection-left-open-after-close-dial {open_}"
+    else s!"OK tags=cc,dial,{callers}"
   | ["conc", g, _ops, entries] =>
     -- goroutines hammering one address concurrently (harness/cc.go ccConcurrent); that the run
     -- survived is the main observation (a crash arrives as a `crash` line)
